@@ -580,6 +580,8 @@ def _(vm, a, ci):
 
 def char_string(vm, c):
     if isinstance(c, int): return const_str(vm, chr(c))
+    w = getattr(vm, 'cp_width', {}).get(c.get_id())
+    if w is not None: return BStr(Buf([c], [w]))
     if getattr(vm, 'str_mode', 'opaque') == 'bounded':
         w = getattr(vm, 'cp_width', {}).get(c.get_id())
         if w is None: raise Unmodelled('symbolic char of unknown UTF-8 width to bounded string')
@@ -650,6 +652,18 @@ def _(vm, a, ci):
 def _(vm, a, ci):
     if ci.method == 'drop': vm.drop_val(a[0])
     return UNIT
+
+
+SIZES = {'Val': 16, 'f64': 8, 'bool': 1, 'char': 4, '()': 0, 'String': 24, 'SourceRange': 16, 'SourceLocation': 8}
+
+
+@path('size_of', 'mem::size_of', 'std::mem::size_of')
+def _(vm, a, ci):
+    t = ci.fnargs[0]
+    if t in INT_TYPES: return INT_TYPES[t][0] // 8
+    if t in SIZES: return SIZES[t]
+    if t.startswith(('&', '*', 'Box<', 'Rc<')): return 8
+    raise Unmodelled('size_of::<' + t + '>')
 
 
 @path('unreachable_unchecked', 'std::hint::unreachable_unchecked', 'hint::unreachable_unchecked')
